@@ -50,6 +50,11 @@ impl TransportHook {
             *g = Some(tx);
         }
     }
+    pub(crate) fn clear_inject_tx(&self) {
+        if let Ok(mut g) = self.inject_tx.lock() {
+            *g = None;
+        }
+    }
     pub(crate) fn inject_tx(
         &self,
     ) -> Option<tokio::sync::mpsc::Sender<(ant_quic::nat_traversal_api::PeerId, Vec<u8>)>> {
